@@ -16,4 +16,6 @@ for d in sorted(glob.glob("/verif/seeded/*")):
     m = json.load(open(os.path.join(d, "meta.json")))
     caught = ", ".join(m["detected_by"]) or "— (missed)"
     prim = "yes" if m.get("detected_by_primary_check") else "NO"
-    print(f"| {os.path.basename(d)} | {m['property']} | {m['summary']} — needs: {m['needs']} | {caught} (primary: {prim}) |")
+    clip = lambda t, n: (t if len(t) <= n else t[:n].rsplit(" ", 1)[0] + " …").replace("|", "/").replace("\n", " ")
+    note = " (see note in meta.json)" if m.get("note") else ""
+    print(f"| {os.path.basename(d)} | {m['property']} | {clip(m['summary'] or '', 230)} — **needs:** {clip(m['needs'] or '', 200)} | {caught} (primary: {prim}){note} |")
